@@ -508,13 +508,15 @@ def run_pool(recs, scratch, opts_for, total_mem_gb, max_jobs, progress=None, cal
 PLAYBACK_RE = re.compile(r"fn (kani_concrete_playback_\w+)\(\)\s*\{(.*?)\n\}", re.S)
 
 
-def kani_concrete_values(cfg, feature, harness, timeout):
+def kani_concrete_values(cfg, feature, harness, timeout, unwind=None):
     """re-run one harness under `cargo kani -Z concrete-playback` and parse the printed
     byte vectors; returns list of (testname, [bytes...]) one per failing check"""
     ws = ensure_ws(cfg, "kani")
     with WsLock(ws):
         cmd = ["cargo", "kani", "--features", feature, "--harness", harness, "--exact"] + KANI_CODEGEN_FLAGS + \
               ["-Z", "concrete-playback", "--concrete-playback=print"]
+        if unwind is not None:
+            cmd += ["--unwind", str(unwind)]  # same bound as the run that produced the counterexample
         try:
             rc, out = sh(cmd, cwd=ws, timeout=timeout)
         except subprocess.TimeoutExpired:
